@@ -29,6 +29,9 @@ func c09Receivers(c *Ctx) []c09Recv {
 			func() []any {
 				return []any{stackage.Or().Push("n1", nil, "n2"), stackage.Cond("ck", stackage.Eq, stackage.List().Push("e")), "leaf"}
 			},
+			func() []any { // redundant wrappers and nil gaps: something for Reveal and Defrag to do
+				return []any{stackage.And().Push(stackage.Or().Push("x", "y")), nil, stackage.List().Push(stackage.Cond("k", stackage.Eq, "v")), nil, nil, "z"}
+			},
 		} {
 			content := content
 			for vi := 0; vi < 4; vi++ {
@@ -249,8 +252,14 @@ func c09AsArgument(c *Ctx, rv c09Recv) {
 			c.Violation("panic:as-argument", fmt.Sprintf("read-only %s passed as %s argument: %s", rv.Name, form, p), nil, 0)
 			continue
 		}
+		// ... and nested in a writable parent that is then rearranged
+		parent := stackage.Or().Push("a", arg, stackage.And().Push(arg))
+		if p := noPanic(func() { parent.Reveal(); parent.Defrag(); parent.Reverse(); _ = parent.String(); parent.Reset() }); p != "" {
+			c.Violation("panic:nested-in-parent", fmt.Sprintf("read-only %s nested (as %s) in a parent: %s", rv.Name, form, p), nil, 0)
+			continue
+		}
 		if after := c09Key(ro, 0, false); after != before {
-			c.Violation("changed:as-argument:"+form, fmt.Sprintf("read-only %s changed after being passed (as %s) to Transfer / IsEqual / Push / SetExpression of other instances:\n before %s\n after  %s", rv.Name, form, before, after), nil, 0)
+			c.Violation("changed:as-argument:"+form, fmt.Sprintf("read-only %s changed after being passed (as %s) to Transfer / IsEqual / Push / SetExpression of other instances or nested in a parent that was revealed / defragmented / reversed / reset:\n before %s\n after  %s", rv.Name, form, before, after), nil, 0)
 			return
 		}
 	}
